@@ -11,7 +11,7 @@ COQ_CASE_TYPE = "case08"
 SHARD = 300
 RULE = ("segments whose endpoints are drawn from all 9x9 region pairs around the rectangle (inside, beyond one edge, beyond a corner, exactly on an edge / corner), "
         "on small integer, half-integer, random rational, large (1e15) and tiny (2^-30) grids; degenerate (zero-length, vertical, horizontal) segments, "
-        "zero-area rectangles; each case is run on Fractions (compared exactly with the model and the exact spec) and on floats (judged by the sandwich checker "
+        "zero-area rectangles; arguments as nested lists or nested tuples, and (lists) the same segment object clipped twice; each case is run on Fractions (compared exactly with the model and the exact spec) and on floats (judged by the sandwich checker "
         "with eps = 1e-9 x coordinate scale); non-trivial = at least one endpoint outside the rectangle")
 TRUSTED = ["python Fraction arithmetic = exact rational arithmetic", "the float judgement (sandwich checker in Corr/C08.v) is an executable specification, not proved sound"]
 ASSUMPTIONS = ["finite coordinates; xmin <= xmax and ymin <= ymax"]
@@ -56,8 +56,20 @@ def run_impl(c):
     conv = (lambda v: v) if c["exact"] else float
     x1, y1, x2, y2 = [conv(v) for v in c["seg"]]
     xmin, xmax, ymin, ymax = [conv(v) for v in c["rect"]]
-    acc, seg = plot_utils.clip_segment([[x1, y1], [x2, y2]], [[xmin, ymin], [xmax, ymax]])
-    return {"accept": bool(acc), "seg": [F(seg[0][0]), F(seg[0][1]), F(seg[1][0]), F(seg[1][1])]}
+    # the arguments are sequences of sequences: lists in two thirds of the cases, tuples (which the code accepts just as well) in the
+    # rest; with lists, the same segment object is then clipped against the same rectangle a second time and must give the same
+    # answer (the caller's segment is an input, not a scratch area)
+    style = (hash((str(c["seg"]), str(c["rect"]))) % 3) if "style" not in c else c["style"]
+    mk = (lambda a, b: (a, b)) if style == 2 else (lambda a, b: [a, b])
+    segment = mk(mk(x1, y1), mk(x2, y2)); bounds = mk(mk(xmin, ymin), mk(xmax, ymax))
+    acc, seg = plot_utils.clip_segment(segment, bounds)
+    out = {"accept": bool(acc), "seg": [F(seg[0][0]), F(seg[0][1]), F(seg[1][0]), F(seg[1][1])]}
+    if style == 1:
+        acc2, seg2 = plot_utils.clip_segment(segment, bounds)
+        again = {"accept": bool(acc2), "seg": [F(seg2[0][0]), F(seg2[0][1]), F(seg2[1][0]), F(seg2[1][1])]}
+        if [F(v) for p in segment for v in p] != [F(x1), F(y1), F(x2), F(y2)] and again != out:
+            return {"raise": "CallerSegmentOverwritten", "msg": "second call on the same segment object returned %r, first %r" % (again, out)}
+    return out
 
 def _st(v):
     return "(mkst %s %s %s %s)" % tuple(cq(F(x)) for x in v)
